@@ -625,11 +625,11 @@ pub fn get(id: &str, thorough: bool) -> Option<PropDef> {
             let mut p = Profile::base("C18");
             p.p_par = (1, 2);
             p.max_peer_sends = 3;
-            p.actors = (1, 4);
+            p.actors = (2, 4);
             p.clients = (1, 5);
             p.ops = (1, 8);
-            p.peer = Peer::Any;
-            p.peer_depth = 3;
+            p.peer = Peer::Others;
+            p.peer_depth = 2;
             p.p_peer = (1, 3);
             p.p_hook_peer = (1, 6);
             p.w_peer_how = [6, 2, 8, 4];
@@ -643,9 +643,21 @@ pub fn get(id: &str, thorough: bool) -> Option<PropDef> {
             p.runs = (0, 2);
             p.caps = vec![1, 2, 3, 8, 32, 0];
             p.w_metrics = 1;
+            // ask-heavy topologies (as in the C15 profile): cycle-free in time, cyclic in space
+            let mut q = p.clone();
+            q.name = "C18-asks";
+            q.actors = (2, 4);
+            q.peer = Peer::Others;
+            q.peer_depth = 2;
+            q.p_peer = (2, 5);
+            q.p_hook_peer = (1, 4);
+            q.w_peer_how = [0, 0, 8, 4];
+            q.w_kill = 0;
+            q.w_msg_out = [20, 1, 0];
+            q.max_work = 6;
             PropDef {
                 id: "C18",
-                profiles: vec![p],
+                profiles: vec![p, q],
                 monitor: m::c01,
                 labels: m2::c18_labels,
                 nontrivial: &["ask_and_timeout_and_nontrivial_end"],
